@@ -16,6 +16,16 @@
  *          to remove todo/<id> (todo_do took its `goto fail` exit); "? ? ?" = timeout / daemon gone
  *       H: the five control files are rewritten, SIGHUP is delivered while the daemon is blocked in select(), and
  *          the daemon is seen blocked in select() again (it passed the loop top)     E: files rewritten, no signal
+ *       I <k> <5 files f1> <5 files f2> <mask> <call>: SIGHUP during the re-read.  f1 is written, SIGHUP (A) is delivered while
+ *          the daemon is blocked in select(); the daemon is held right BEFORE its k-th call (k = 0,1,..; chdir, open_read,
+ *          read, close - the calls reread()/regetcontrols()/control_readfile() make) after that signal; while it is held
+ *          f2 is written (each file replaced atomically by rename) and a second real SIGHUP (B) is sent; then the daemon
+ *          is released.  When it is blocked in select() again the trigger is pulled once with nothing queued (the stock
+ *          loop looks at the HUP flag only at its top, select() does not return for a signal that arrived before it)
+ *          and the step ends when the daemon is idle again.  <mask>: bit 0 / bit 1 = control/locals / control/
+ *          virtualdomains had already been opened by re-read (A) when the daemon was held (that re-read sees f1 for
+ *          these and f2 for the others); <call> = the call it was held at, "none" = it made fewer than k+1 calls: then
+ *          f2 and SIGHUP (B) came while it was blocked in select() again (mask 3).
  *   D <me> <env> <locals> <ph> <vdoms> <started> <todo> <id> { C <chan> ok|badslot <fn> <sender> <recip> }   real main() with
  *          both spawners announcing concurrency 10: the delivery commands qmail-send wrote to the spawner pipes for this
  *          one message (del_start -> comm_write -> comm_do; VERP), channel 0 = local first, then channel 1 = remote
@@ -28,11 +38,52 @@
 #include <time.h>
 #include <sys/stat.h>
 #include <sys/wait.h>
+#include <sys/mman.h>
+
+/* ------------------------------------------------------------------ call gate (I steps)
+ * chdir / open_read / read / close as called by the #included control.c and qmail-send.c go through these pass-through
+ * wrappers.  They change no argument and no result; when the parent has armed the gate, the forked daemon stops right
+ * before its k-th such call, tells the parent and waits to be released (the parent edits the control files and sends
+ * a real SIGHUP meanwhile: the daemon's own handler sighup() runs while it waits). */
+typedef struct { volatile int armed, k, count, mask, mask_at, reached, which; volatile pid_t pid; } gate_t;
+static gate_t *GT;
+static int gate_cr = -1, gate_cw = -1;   /* the child's ends: read "go", write "reached" */
+static const char *gate_names[] = { "none", "chdir", "open_read", "read", "close" };
+static void gate(int which) {
+  if (!GT || !GT->armed || getpid() != GT->pid) return;
+  if (GT->count++ != GT->k) return;
+  GT->armed = 0; GT->mask_at = GT->mask; GT->which = which; GT->reached = 1;
+  char c = 'r';
+  if (write(gate_cw, &c, 1) != 1) return;
+  while (read(gate_cr, &c, 1) == -1 && errno == EINTR) ;
+}
+extern int open_read();
+static int c10_open_read(char *fn) {
+  gate(2);
+  int r = open_read(fn);
+  if (GT && GT->pid == getpid()) { int e = errno;
+    if (!strcmp(fn, "control/locals")) GT->mask |= 1;
+    if (!strcmp(fn, "control/virtualdomains")) GT->mask |= 2;
+    errno = e; }
+  return r;
+}
+static ssize_t c10_read(int fd, void *b, size_t n) { gate(3); return read(fd, b, n); }
+static int c10_close(int fd) { gate(4); return close(fd); }
+static int c10_chdir(const char *d) { gate(1); return chdir(d); }
+
 #define _exit(x) h_exit(x)
 #define main qmail_send_main
+#define open_read c10_open_read
+#define read c10_read
+#define close c10_close
+#define chdir c10_chdir
 #include "control.c"
 #include "constmap.c"
 #include "qmail-send.c"
+#undef chdir
+#undef close
+#undef read
+#undef open_read
 #undef main
 #undef _exit
 
@@ -58,6 +109,17 @@ static void write_files(const files *F) {
   for (int i = 0; i < NF; i++) {
     snprintf(path, sizeof path, "%s/%s", auto_qmail, fnames[i]);
     if (F->present[i]) put_file(path, F->b[i].p, F->b[i].n); else unlink(path);
+  }
+}
+/* every file replaced by rename (or removed): a reader that has the old file open keeps reading the old contents */
+static void write_files_atomic(const files *F) {
+  char path[4400], tmp[4500];
+  for (int i = 0; i < NF; i++) {
+    snprintf(path, sizeof path, "%s/%s", auto_qmail, fnames[i]);
+    if (!F->present[i]) { unlink(path); continue; }
+    snprintf(tmp, sizeof tmp, "%s.new", path);
+    put_file(tmp, F->b[i].p, F->b[i].n);
+    if (rename(tmp, path)) { perror("rename"); exit(2); }
   }
 }
 static void out_filefield(const files *F, int i) {
@@ -154,7 +216,7 @@ static void do_B(int c, const unsigned char *s, size_t n) {
 }
 
 /* ------------------------------------------------------------------ H3: the real main() in a child */
-typedef struct { char kind; hbuf todo; files F; } step;
+typedef struct { char kind; hbuf todo; files F; files F2; int k; int grp; } step;   /* F2, k: I steps; grp: sweep group */
 static char qdir[4400];
 
 static void mkdirs(void) {
@@ -239,16 +301,19 @@ static void out_qfile(const char *sub, unsigned long id) {
   unlink(path);
 }
 
+static int gate_pw = -1, gate_pr = -1;   /* our ends of the gate pipes: write "go", read "reached" */
+static int daemon_crashes;              /* scenarios in which the daemon died of a signal / sanitizer report */
 static int p2w, p4w;                     /* our write ends of the spawner report pipes (qmail-send's fd 2 / fd 4) */
 static int lrd[2] = { -1, -1 };          /* our read ends of the delivery command pipes (fd 1 / fd 3), conc > 0 only */
 
 /* fork the real main(); conc = what both spawners announce as their concurrency (0: nothing is ever delivered and
  * fd 1 / fd 3 are /dev/null).  returns the pid, *started = the daemon reached its idle select() */
 static pid_t launch(const files *F0, int conc, int *started) {
-  int p1[2] = { -1, -1 }, p3[2] = { -1, -1 }, p2[2], p4[2], p5[2], p6[2];
+  int p1[2] = { -1, -1 }, p3[2] = { -1, -1 }, p2[2], p4[2], p5[2], p6[2], gp[2], gq[2];
   char path[4600];
   write_files(F0);
-  if (pipe(p2) || pipe(p4) || pipe(p5) || pipe(p6)) { perror("pipe"); exit(2); }
+  if (pipe(p2) || pipe(p4) || pipe(p5) || pipe(p6) || pipe(gp) || pipe(gq)) { perror("pipe"); exit(2); }
+  if (GT) { GT->armed = 0; GT->pid = 0; }
   if (conc && (pipe(p1) || pipe(p3))) { perror("pipe"); exit(2); }
   fflush(h_out);
   pid_t pid = fork();
@@ -256,18 +321,20 @@ static pid_t launch(const files *F0, int conc, int *started) {
   if (pid == 0) {
     snprintf(path, sizeof path, "%s/log", auto_qmail);
     int lg = open(path, O_WRONLY | O_CREAT | O_TRUNC, 0644), dn = open("/dev/null", O_RDWR);
-    int src[7] = { lg, conc ? p1[1] : dn, p2[0], conc ? p3[1] : dn, p4[0], p5[1], p6[0] }, hi[7];
-    for (int i = 0; i < 7; i++) hi[i] = fcntl(src[i], F_DUPFD, 40);
+    int src[9] = { lg, conc ? p1[1] : dn, p2[0], conc ? p3[1] : dn, p4[0], p5[1], p6[0], gp[0], gq[1] }, hi[9];
+    for (int i = 0; i < 9; i++) hi[i] = fcntl(src[i], F_DUPFD, 40);
     if (__sanitizer_set_report_path) { snprintf(path, sizeof path, "%s/asan", auto_qmail); __sanitizer_set_report_path(path); }
-    for (int i = 0; i < 7; i++) dup2(hi[i], i);
-    for (int i = 7; i < 256; i++) close(i);
+    for (int i = 0; i < 9; i++) dup2(hi[i], i);
+    for (int i = 9; i < 256; i++) close(i);
+    gate_cr = 7; gate_cw = 8;           /* the gate's pipe ends (I steps); qmail-send itself uses fds 0-6 */
     h_exit_armed = 0;
     meok = 0; me.len = 0;               /* control.c statics dirtied by the in-process cases: as in a fresh process */
     envnoathost.len = percenthack.len = locals.len = vdoms.len = newlocals.len = newvdoms.len = 0;   /* likewise */
     qmail_send_main();
     _exit(99);
   }
-  close(p2[0]); close(p4[0]); close(p5[1]); close(p6[0]);
+  close(p2[0]); close(p4[0]); close(p5[1]); close(p6[0]); close(gp[0]); close(gq[1]);
+  gate_pw = gp[1]; gate_pr = gq[0];
   if (conc) { close(p1[1]); close(p3[1]); lrd[0] = p1[0]; lrd[1] = p3[0]; }
   rd_clean = p5[0]; wr_clean = p6[1]; p2w = p2[1]; p4w = p4[1];
   signal(SIGPIPE, SIG_IGN);
@@ -290,13 +357,21 @@ static void finish(pid_t pid) {
     if (poll(&pf, 1, 1) > 0 && (pf.revents & POLLIN)) { char ch; if (read(rd_clean, &ch, 1) == 1 && !ch) { if (write(wr_clean, "+", 1) != 1) {} } }
   }
   close(p2w); close(p4w); close(rd_clean); close(wr_clean);
+  if (gate_pw >= 0) { close(gate_pw); close(gate_pr); gate_pw = gate_pr = -1; }
+  if (GT) { GT->armed = 0; GT->pid = 0; }
   for (int c = 0; c < 2; c++) if (lrd[c] >= 0) { close(lrd[c]); lrd[c] = -1; }
   if (!(WIFEXITED(status) && (WEXITSTATUS(status) == 0 || WEXITSTATUS(status) == 111))) {
     /* the daemon crashed (sanitizer report or signal): show it, the check treats stderr + exit code as an error */
     fprintf(stderr, "c10_route: qmail-send child ended abnormally (status 0x%x)\n", status);
-    char cmd[4700]; snprintf(cmd, sizeof cmd, "cat %s/asan.* %s/log 1>&2 2>/dev/null", auto_qmail, auto_qmail);
+    char cmd[9400];
+    if (!daemon_crashes++) {                               /* the first report in full */
+      snprintf(cmd, sizeof cmd, "cat %s/asan.* %s/log 1>&2 2>/dev/null", auto_qmail, auto_qmail);
+      if (system(cmd)) {}
+    }
+    /* the run goes on with a fresh queue (the other scenarios are still judged); the harness exits with 3 at the end */
+    snprintf(cmd, sizeof cmd, "rm -rf '%s/queue' '%s'/asan.*", auto_qmail, auto_qmail);
     if (system(cmd)) {}
-    fflush(h_out); exit(3);
+    mkdirs();
   }
 }
 
@@ -311,13 +386,58 @@ static void inject(unsigned long id, const hbuf *todo) {
   if (tf >= 0) { if (write(tf, "", 1) != 1) {} close(tf); }
 }
 
+static void pull_trigger(void) {
+  char path[4600];
+  snprintf(path, sizeof path, "%s/lock/trigger", qdir);
+  int tf = open(path, O_WRONLY | O_NONBLOCK);
+  if (tf >= 0) { if (write(tf, "", 1) != 1) {} close(tf); }
+}
+
+/* after SIGHUP (A) was sent with the gate armed: 1 = the daemon is held at its k-th call, 0 = it is blocked in select()
+ * again without having made that many calls, -1 = timeout / daemon gone */
+static int wait_gate(pid_t pid, double timeout) {
+  double t0 = nowf(); int idle_seen = 0;
+  for (;;) {
+    struct pollfd pf = { gate_pr, POLLIN, 0 };
+    int r = poll(&pf, 1, 1);
+    if (r > 0 && (pf.revents & POLLIN)) { char c; return read(gate_pr, &c, 1) == 1 ? 1 : -1; }
+    if (r > 0) return -1;
+    int st = child_idle(pid);
+    if (st < 0) return -1;
+    if (st == 1) { if (++idle_seen >= 2) return 0; } else idle_seen = 0;
+    if (nowf() - t0 > timeout) return -1;
+  }
+}
+
 static void do_S(const files *F0, step *st, int nst) {
   char path[4600];
   int started;
   pid_t pid = launch(F0, 0, &started);
+  int endgrp = 0, skipping = 0;
   fputs("S", h_out); out_files(F0); fprintf(h_out, " %d %d", started, started ? nst : 0);
   for (int k = 0; started && k < nst; k++) {
     step *s = &st[k];
+    /* a sweep group (I k=0; M; I k=1; M; ...) ends with the first I step whose k is past the daemon's last call */
+    if (s->grp && s->grp == endgrp && (skipping || s->kind == 'I')) { skipping = 1; continue; }
+    if (s->kind == 'I') {
+      write_files(&s->F);
+      fprintf(h_out, " I %d", s->k); out_files(&s->F); out_files(&s->F2);
+      GT->k = s->k; GT->count = 0; GT->mask = 0; GT->mask_at = 0; GT->reached = 0; GT->which = 0; GT->pid = pid;
+      GT->armed = 1;
+      kill(pid, SIGHUP);                                   /* (A): select() returns EINTR, the loop top calls reread() */
+      int held = wait_gate(pid, 20.0);
+      GT->armed = 0;
+      if (held < 0) { started = 0; break; }
+      write_files_atomic(&s->F2);
+      kill(pid, SIGHUP);                                   /* (B) */
+      if (held) { if (write(gate_pw, "g", 1) != 1) { started = 0; break; } }
+      if (!service(pid, 0, 20.0)) { started = 0; break; }
+      pull_trigger();                                      /* select() returns, empty todo run, the loop passes its top */
+      if (!service(pid, 0, 20.0)) { started = 0; break; }
+      fprintf(h_out, " %d %s", held ? GT->mask_at : 3, gate_names[held ? GT->which : 0]);
+      if (!held && s->grp) endgrp = s->grp;
+      continue;
+    }
     if (s->kind == 'M') {
       unsigned long id = next_id++;
       inject(id, &s->todo);
@@ -593,6 +713,116 @@ static void gen_todo_bad(hbuf *t) {
   hbuf_reset(t); badd(t, g.p, pos); badd(t, b, strlen(b) + 1); badd(t, g.p + pos, g.n - pos);
 }
 
+
+/* ------------------------------------------------------------------ legs (14), (15): helpers */
+static void ensure_nl(hbuf *b) { if (b->n && b->p[b->n - 1] != '\n') badd(b, "\n", 1); }
+
+/* three domains whose class is fixed whatever else the generated files say: bigdom[0] is listed in locals, bigdom[1]
+ * has a virtualdomains entry with the prepend bigtag, bigdom[2] has an exception entry (empty prepend: remote even
+ * under a catch-all).  The names start with a digit label, so they are no key of the generated part of the files. */
+static char bigdom[3][64], bigtag[24];
+static void gen_bigdoms(void) {
+  static const char *pre[3] = { "0l", "0v", "0r" };
+  for (int i = 0; i < 3; i++) {
+    if (h_below(3)) snprintf(bigdom[i], sizeof bigdom[i], "%s.%s", pre[i], pool[h_below(NPOOL)]);
+    else snprintf(bigdom[i], sizeof bigdom[i], "%s%u.example", pre[i], h_below(10));
+  }
+  snprintf(bigtag, sizeof bigtag, "%s", h_below(2) ? "vt" : "alias-big");
+}
+static void add_classes(files *F) {
+  char l[200];
+  F->present[2] = 1; ensure_nl(&F->b[2]); snprintf(l, sizeof l, "%s\n", bigdom[0]); badd(&F->b[2], l, strlen(l));
+  F->present[4] = 1; ensure_nl(&F->b[4]);
+  snprintf(l, sizeof l, "%s:%s\n%s:\n", bigdom[1], bigtag, bigdom[2]); badd(&F->b[4], l, strlen(l));
+}
+
+/* one recipient record "T<serial><user>@<domain>\0" of class cls (0 local, 1 virtual, 2 remote; 3: gen_recip, whatever
+ * it routes to); ulen = length of the generated part of the user.  Returns the length of the record the documented
+ * rules put into the channel file (cls 0-2; 0 for cls 3) */
+static size_t big_record(hbuf *t, int cls, int serial, size_t ulen) {
+  static const char ua[] = "abcdefghijklmnopqrstuvwxyzABCDEFGHIJKLMNOPQRSTUVWXYZ0123456789-._=+";
+  unsigned char r[400]; char d[64], sn[16];
+  size_t before = t->n;
+  badd(t, "T", 1);
+  if (cls == 3) {
+    size_t l = gen_recip(r);
+    for (size_t j = 0; j < l; j++) if (!r[j]) r[j] = 'z';
+    badd(t, r, l); badd(t, "", 1);
+    return 0;
+  }
+  int n = snprintf(sn, sizeof sn, "%03d", serial); badd(t, sn, n);
+  for (size_t i = 0; i < ulen; i++) { char c = ua[h_below(sizeof ua - 1)]; badd(t, &c, 1); }
+  strcpy(d, bigdom[cls]); if (h_below(3) == 0) { int sv = amode; amode = 1; randcase(d, 50); amode = sv; }
+  badd(t, "@", 1); badd(t, d, strlen(d)); badd(t, "", 1);
+  return t->n - before + (cls == 1 ? strlen(bigtag) + 1 : 0);
+}
+
+#define CHANBUF 1024          /* todo_do's per-channel output buffer (char todobufchan[CHANNELS][1024]) */
+/* user length for the next record of a channel that has received `have` bytes: now and then chosen so that the record
+ * ends exactly at, one short of, or one past a multiple of the channel buffer size */
+static size_t big_ulen(int lenmode, size_t have, size_t fixed) {
+  size_t ul;
+  int m = lenmode == 3 ? (int)h_below(3) : lenmode;
+  ul = m == 0 ? h_below(12) : m == 1 ? 16 + h_below(40) : 70 + h_below(200);
+  if (m == 2 && h_below(30) == 0) ul = 900 + h_below(1300);             /* one record longer than a whole channel buffer */
+  if (h_below(4) == 0) {
+    size_t next = (have / CHANBUF + 1) * CHANBUF + h_below(3) - 1;      /* boundary - 1, boundary, boundary + 1 */
+    if (next >= have + fixed && next - have - fixed <= 290) ul = next - have - fixed;
+  }
+  return ul;
+}
+
+/* a message with many recipients: the bytes per channel file are swept over 0.5x .. 3x of the channel buffer size, in
+ * every mix: alternating, blocks, one remote among many local and vice versa, random mixes; short, medium, long and
+ * mixed address lengths.  Every generated recipient carries a serial number, so a dropped, duplicated, merged or
+ * misplaced record cannot be mistaken for another one. */
+static void gen_todo_big(hbuf *t) {
+  char hd[128];
+  hbuf_reset(t);
+  int n = snprintf(hd, sizeof hd, "u%u", h_below(70000)); badd(t, hd, n + 1);
+  n = snprintf(hd, sizeof hd, "p%u", h_below(70000)); badd(t, hd, n + 1);
+  badd(t, "Fsender", 7);
+  if (h_below(8) == 0) { int l = 300 + h_below(500); for (int i = 0; i < l; i++) badd(t, "s", 1); }   /* info/<id> has a 512-byte buffer */
+  n = snprintf(hd, sizeof hd, "@%s", pick_dom()); badd(t, hd, n + 1);
+  int pattern = h_below(6), lenmode = h_below(4);
+  size_t want[2], have[2] = { 0, 0 };                      /* bytes per channel: 0 local (local + virtual), 1 remote */
+  for (int c = 0; c < 2; c++) want[c] = CHANBUF / 2 + h_below(CHANBUF * 5 / 2 + 1);
+  if (h_below(6) == 0) want[h_below(2)] = CHANBUF * 3 + h_below(CHANBUF * 3);   /* now and then more than todo_do's 8 KB input buffer in all */
+  int lone = -1;                                           /* patterns 2/3: the channel that gets a single record */
+  if (pattern == 2) lone = 1; else if (pattern == 3) lone = 0;
+  if (lone >= 0) want[lone] = 1;
+  int lonepos = h_below(4);                                /* first, last, middle, random */
+  size_t lonetrig = lonepos == 0 ? 0 : lonepos == 1 ? (size_t)-1 : lonepos == 2 ? want[!lone] / 2 : h_below(want[!lone] + 1);
+  int ch = h_below(2), serial = 0, pmix = 5 + h_below(90);
+  size_t blockleft = 0;
+  for (int guard = 0; guard < 900; guard++) {
+    int open0 = have[0] < want[0], open1 = have[1] < want[1];
+    if (lone >= 0) {                                       /* the lone record goes in when the other channel reached lonetrig */
+      int other = !lone, loneopen = have[lone] == 0;
+      if (loneopen && (have[other] >= lonetrig || have[other] >= want[other])) ch = lone;
+      else if (have[other] < want[other]) ch = other;
+      else break;
+    } else {
+      if (!open0 && !open1) break;
+      switch (pattern) {
+        case 0: ch = !ch; break;                                                   /* alternating */
+        case 1: if (!blockleft) { ch = !ch; blockleft = 1 + h_below(40); } blockleft--; break;   /* blocks of records */
+        case 4: ch = h_below(100) < (unsigned)pmix; break;                         /* random mix, any proportion */
+        default: if (!blockleft) { ch = !ch; blockleft = 100 + h_below(1400); }    /* blocks of bytes */
+                 break;
+      }
+      if (ch == 0 && !open0) ch = 1; else if (ch == 1 && !open1) ch = 0;
+    }
+    int cls = ch == 1 ? 2 : (int)h_below(2);
+    if (lone < 0 && h_below(40) == 0) { big_record(t, 3, 0, 0); continue; }       /* a recipient of the usual kind in between */
+    size_t fixed = 1 + 3 + 1 + strlen(bigdom[cls]) + 1 + (cls == 1 ? strlen(bigtag) + 1 : 0);
+    size_t got = big_record(t, cls, serial++ % 1000, big_ulen(lenmode, have[ch], fixed));
+    have[ch] += got;
+    if (pattern == 5) { if (blockleft > got) blockleft -= got; else blockleft = 0; }
+  }
+  if (h_below(8) == 0) badd(t, "Tpartial@a", 10);
+}
+
 static const char *fixed_cfg[3][NF] = {
   /* me, envnoathost, locals, percenthack, virtualdomains */
   { "a\n", "u.a\n", "a\nA.u\n", "a\nu.a\nu\n", "u@u:t\nu:v\n.u:w\n.a.u:\nu@u.u:\n" },
@@ -640,14 +870,15 @@ static const int letter_kfc[] = { 0, 0, 0, 1, 1, 0, 1 };
 static const char *letter_kkeys[] = { "P", "xPy", "XPY", "PP", "PQ", "P." };
 
 /* ------------------------------------------------------------------ stdin mode */
-static files SF; static step steps[64];
+#define NSTEPS 64
+static files SF; static step steps[NSTEPS];
 
 static void stdin_mode(void) {
   static char line[1 << 21];
   static unsigned char a[1 << 20], b[1 << 20];
   while (fgets(line, sizeof line, stdin)) {
-    char *tok[400]; int nt = 0;
-    for (char *p = strtok(line, " \n"); p && nt < 400; p = strtok(0, " \n")) tok[nt++] = p;
+    char *tok[1200]; int nt = 0;
+    for (char *p = strtok(line, " \n"); p && nt < 1200; p = strtok(0, " \n")) tok[nt++] = p;
     if (!nt) continue;
     if (!strcmp(tok[0], "G") && nt >= 6) { for (int i = 0; i < NF; i++) set_file(&SF, i, tok[1 + i]); do_G(&SF); }
     else if (!strcmp(tok[0], "R") && nt >= 2) { int n = unhex(tok[1], a); do_R(a, n); }
@@ -665,12 +896,18 @@ static void stdin_mode(void) {
       for (int i = 0; i < NF; i++) set_file(&SF, i, tok[1 + i]);
       int ns = 0, i = 6;
       /* optional "<started> <n>" copied from an output line */
-      while (i < nt && strcmp(tok[i], "M") && strcmp(tok[i], "H") && strcmp(tok[i], "E")) i++;
-      while (i < nt && ns < 64) {
+#define ISSTEP(t) (!strcmp(t, "M") || !strcmp(t, "H") || !strcmp(t, "E") || !strcmp(t, "I"))
+      while (i < nt && !ISSTEP(tok[i])) i++;
+      while (i < nt && ns < NSTEPS) {
         step *s = &steps[ns];
+        s->grp = 0;
         if (!strcmp(tok[i], "M") && i + 1 < nt) {
           s->kind = 'M'; hbuf_reset(&s->todo); int n = unhex(tok[i + 1], a); badd(&s->todo, a, n); ns++;
-          i += 2; while (i < nt && strcmp(tok[i], "M") && strcmp(tok[i], "H") && strcmp(tok[i], "E")) i++;
+          i += 2; while (i < nt && !ISSTEP(tok[i])) i++;
+        } else if (!strcmp(tok[i], "I") && i + 1 + 2 * NF < nt + 0) {
+          s->kind = 'I'; s->k = atoi(tok[i + 1]);
+          for (int j = 0; j < NF; j++) { set_file(&s->F, j, tok[i + 2 + j]); set_file(&s->F2, j, tok[i + 2 + NF + j]); }
+          ns++; i += 2 + 2 * NF; while (i < nt && !ISSTEP(tok[i])) i++;
         } else if ((!strcmp(tok[i], "H") || !strcmp(tok[i], "E")) && i + NF < nt + 0) {
           s->kind = tok[i][0]; for (int j = 0; j < NF; j++) set_file(&s->F, j, tok[i + 1 + j]); ns++; i += 1 + NF;
         } else break;
@@ -702,8 +939,11 @@ int main(int argc, char **argv) {
   snprintf(qdir, sizeof qdir, "%s/queue", auto_qmail);
   mkdirs();
   if (chdir(auto_qmail)) { perror("chdir"); return 2; }
+  GT = mmap(0, sizeof *GT, PROT_READ | PROT_WRITE, MAP_SHARED | MAP_ANONYMOUS, -1, 0);
+  if (GT == MAP_FAILED) { perror("mmap"); return 2; }
+  memset((void *)GT, 0, sizeof *GT);
 
-  if (argc > 1 && !strcmp(argv[1], "-")) { stdin_mode(); fflush(h_out); return 0; }
+  if (argc > 1 && !strcmp(argv[1], "-")) { stdin_mode(); fflush(h_out); return daemon_crashes ? 3 : 0; }
 
   int explen = h_argi(argc, argv, 1, 5), nconfigs = h_argi(argc, argv, 2, 200), nscen = h_argi(argc, argv, 3, 32);
   uint64_t seed = (uint64_t)h_argi(argc, argv, 4, 1);
@@ -985,6 +1225,78 @@ int main(int argc, char **argv) {
     do_D(&F, &t);
   }
   amode = 0;
+
+  /* (14) seeded, own stream: SIGHUP DURING the re-read, at every call index.  One daemon per scenario; a sweep of pairs
+   * (I k; M) for k = 0, 1, 2, ... until k is past the last call the daemon makes between SIGHUP (A) and its next select():
+   * f1 is written and HUPed, the daemon is held before its k-th call inside reread()/regetcontrols()/control_readfile(),
+   * f2 (a domain newly listed in locals or virtualdomains, a line removed, or freshly generated files) is written and HUPed
+   * as well, then the message: every pool domain is probed, the files of the LAST HUP must be in force. */
+  h_seed(seed * 1000003ull + 17 * shard + 1100003);
+  int niscen = nscen / 16 + 2;
+  for (int c = 0; c < niscen; c++) {
+    if ((c % nshards) != shard) continue;
+    amode = (c / nshards) & 1;
+    gen_files(&F, 1);
+    if (!F.present[0] && !F.present[2]) F.present[2] = 1;
+    int ns = 0, single = h_below(4) == 0;                  /* single: one I step at a random k among other steps */
+    if (h_below(2)) { steps[ns].kind = 'M'; steps[ns].grp = 0; gen_todo(&steps[ns].todo); ns++; }
+    int npairs = single ? 1 + h_below(3) : 26;
+    for (int q = 0; q < npairs && ns + 3 < NSTEPS; q++) {
+      step *s = &steps[ns];
+      s->kind = 'I'; s->grp = single ? 0 : 1; s->k = single ? (int)h_below(14) : q;
+      gen_files(&s->F, 0);
+      if (!s->F.present[0] && !s->F.present[2]) s->F.present[2] = 1;
+      copy_files(&s->F2, &s->F);
+      switch (h_below(6)) {
+        case 0: case 1: {                                  /* a domain newly listed in locals */
+          char l[100]; snprintf(l, sizeof l, "%s\n", pick_dom()); randcase(l, 15);
+          s->F2.present[2] = 1; ensure_nl(&s->F2.b[2]); badd(&s->F2.b[2], l, strlen(l)); break; }
+        case 2: case 3: {                                  /* a newly listed virtual domain / virtual user / wildcard */
+          char l[160]; int kd = h_below(4); const char *d = pick_dom();
+          if (kd == 0) snprintf(l, sizeof l, "%s@%s:%s\n", pick_user(), d, pick_tag());
+          else if (kd == 1) snprintf(l, sizeof l, ".%s:%s\n", d, pick_tag());
+          else snprintf(l, sizeof l, "%s:%s\n", d, h_below(5) ? pick_tag() : "");
+          s->F2.present[4] = 1; ensure_nl(&s->F2.b[4]); badd(&s->F2.b[4], l, strlen(l)); break; }
+        case 4: {                                          /* both */
+          char l[100]; snprintf(l, sizeof l, "%s\n", pick_dom());
+          s->F2.present[2] = 1; ensure_nl(&s->F2.b[2]); badd(&s->F2.b[2], l, strlen(l));
+          snprintf(l, sizeof l, "%s:%s\n", pick_dom(), pick_tag());
+          s->F2.present[4] = 1; ensure_nl(&s->F2.b[4]); badd(&s->F2.b[4], l, strlen(l)); break; }
+        default: gen_files(&s->F2, 0); if (!s->F2.present[0] && !s->F2.present[2]) s->F2.present[2] = 1; break;
+      }
+      ns++;
+      if (single && h_below(3) == 0) { gen_files(&steps[ns].F, 0); steps[ns].kind = 'E'; steps[ns].grp = 0; ns++; }
+      s = &steps[ns]; s->kind = 'M'; s->grp = single ? 0 : 1; gen_todo(&s->todo);
+      for (int d = 0; d < NPOOL; d++) {                    /* every pool domain probed */
+        char tt[120]; snprintf(tt, sizeof tt, "T%s@%s", pick_user(), pool[d]);
+        if (h_below(4) == 0) randcase(tt + 1, 30);
+        badd(&s->todo, tt, strlen(tt) + 1);
+      }
+      ns++;
+    }
+    do_S(&F, steps, ns);
+  }
+  amode = 0;
+
+  /* (15) seeded, own stream: messages with many recipients through the real daemon - the bytes per channel file swept
+   * over 0.5x..3x of todo_do's channel buffers in every mix of local / virtual / remote order (gen_todo_big), before and
+   * after a HUP */
+  h_seed(seed * 1000003ull + 17 * shard + 1300021);
+  int nbscen = nscen / 8 + 2;
+  for (int c = 0; c < nbscen; c++) {
+    if ((c % nshards) != shard) continue;
+    amode = (c / nshards) & 1;
+    gen_files(&F, 1); gen_bigdoms(); add_classes(&F);
+    int ns = 0, nm = 2 + h_below(3);
+    for (int i = 0; i < nm; i++) {
+      if (i == 1 && h_below(2)) { gen_files(&steps[ns].F, 0); add_classes(&steps[ns].F); steps[ns].kind = 'H'; steps[ns].grp = 0; ns++; }
+      steps[ns].kind = 'M'; steps[ns].grp = 0;
+      if (h_below(8) == 0) gen_todo(&steps[ns].todo); else gen_todo_big(&steps[ns].todo);
+      ns++;
+    }
+    do_S(&F, steps, ns);
+  }
+  amode = 0;
   fflush(h_out);
-  return 0;
+  return daemon_crashes ? 3 : 0;
 }
